@@ -11,6 +11,10 @@ class ToolError(Exception):
     pass
 
 
+# the thorough tier multiplies every TLC time limit (set by ./check): its runs are bigger and may share the machine
+TIMEOUT_SCALE = 1
+
+
 class TlcResult:
     def __init__(self):
         self.generated = 0
@@ -67,6 +71,7 @@ def run(module, cfg, workers=16, timeout=900, env=None, simulate=None, depth=Non
     if env:
         e.update(env)
     t0 = time.time()
+    timeout = timeout * TIMEOUT_SCALE
     try:
         p = subprocess.run(cmd, cwd=os.path.dirname(mod_path), env=e, stdout=subprocess.PIPE, stderr=subprocess.STDOUT,
                            timeout=timeout, text=True, errors="replace")
